@@ -131,14 +131,20 @@ def _prefix(rng, rich):
     return "/{tenant}" + rng.choice([".d", "b"])
 
 
+FALLBACK_EXTRA = ["", ", _c: &pavex::connection::ConnectionInfo", ", _p: &pavex::request::path::RawPathParams",
+                  ", _b: pavex::request::body::RawIncomingBody"]
+
+
 def fallback_item(k):
+    # besides the allowed methods, a fallback may ask for one of the framework items the generated router only binds
+    # when some pipeline needs it (which one depends on k: the first fallback, usually the top-level one, takes none)
     return ('#[pavex::fallback(id = "__MODU___FB%d")]\n'
-            'pub fn fb%d(a: &pavex::router::AllowedMethods) -> Response {\n'
+            'pub fn fb%d(a: &pavex::router::AllowedMethods%s) -> Response {\n'
             '    let seen = match a { pavex::router::AllowedMethods::All => "*".to_string(), '
             'pavex::router::AllowedMethods::Some(l) => l.iter().map(|m| m.as_str().to_owned()).collect::<Vec<_>>().join(",") };\n'
             '    log(format!("fallback __MOD__.fb%d : {}", seen));\n'
             '    Response::new(pavex::http::StatusCode::from_u16(%d).unwrap())\n'
-            '}\n') % (k, k, k, 460 + k)
+            '}\n') % (k, k, FALLBACK_EXTRA[k % 4], k, 460 + k)
 
 
 def make(rng, name):
